@@ -10,6 +10,14 @@ import "time"
 // system) contend for one table; each is a writer (acquire for update, read, write the new version,
 // commit) or a reader (acquire for read, read, close).  Every interleaving of their file-system
 // operations with at most 2 preemptions (thorough 3) and every timeout instant is explored.
+func verifC09ReadAll(h *Handler) string {
+	fp := h.File()
+	_, _ = fp.Seek(0, 0)
+	buf := make([]byte, 16)
+	n, _ := fp.Read(buf)
+	return string(buf[:n])
+}
+
 func VerifC09TwoProcesses() {
 	verifFileWrite("t.csv", "0")
 	verifPreemptions(verifBound(2, 3))
@@ -32,7 +40,7 @@ func VerifC09TwoProcesses() {
 				acquired[id] = true
 				verifAssert("no other process holds the table when a writer enters", writers == 0 && readers == 0)
 				writers++
-				read[id] = verifFileRead("t.csv")
+				read[id] = verifC09ReadAll(h) // as csvq does: through the handle it opened
 				verifYield()
 				fp, e := h.FileForUpdate()
 				verifAssert("writer has a file to update", e == nil)
@@ -54,7 +62,8 @@ func VerifC09TwoProcesses() {
 			acquired[id] = true
 			verifAssert("no writer holds the table when a reader enters", writers == 0)
 			readers++
-			read[id] = verifFileRead("t.csv")
+			read[id] = verifC09ReadAll(h)
+			verifAssert("a reader sees the table as it is on disk", read[id] == verifFileRead("t.csv"))
 			verifYield()
 			verifAssert("the table did not change while it was being read", verifFileRead("t.csv") == read[id])
 			readers--
